@@ -102,11 +102,12 @@ def phase(w):
     return "gone" if p is None else ("zombie" if p.state == "Z" else "alive")
 
 
-def one_run(w, ps, m, arg, plan):
+def one_run(w, ps, m, arg, plan, cold=False):
     """plan: list of (k, kind) with kind in vanish|zombie|EACCES|EPERM."""
     build_world(w)
     ps.process_iter.cache_clear()
-    ps.virtual_memory()      # (memory_percent() memoises the machine's total memory: make every run start alike)
+    if not cold:
+        ps.virtual_memory()  # (memory_percent() memoises the machine's total memory: make every run start alike)
     p = ps.Process(PID)
     acc = []
     base = w.acc
@@ -159,7 +160,7 @@ def dry_chunk(items):
 
 def fault_chunk(jobs):
     w, ps = template()
-    return [one_run(w, ps, m, arg, [tuple(x) for x in plan]) for (m, arg, plan) in jobs]
+    return [one_run(w, ps, j[0], j[1], [tuple(x) for x in j[2]], cold=(len(j) > 3)) for j in jobs]
 
 
 def signature(rec, clauses):
@@ -183,6 +184,8 @@ def signature(rec, clauses):
             return "C03-ppid_map-denied"
         if where == "proc-listing":
             return "C03-proc-listing-denied"
+        if where == "system-file" and path.endswith("/meminfo") and rec["m"] in ("memory_percent", "as_dict"):
+            return "C03-meminfo-denied"
     return "%s:%s:%s:%s:%s" % (rec["m"], "+".join(kinds), where, rec["out"], ",".join(failed))
 
 
@@ -294,6 +297,12 @@ def check(ctx):
         for i, j in pairs:
             jobs.append((m, arg, [(i, "EACCES"), (j, "vanish")]))
     chunks = [jobs[i:i + 25] for i in range(0, len(jobs), 25)]
+    # memory_percent() with the total-memory memo still cold (first use in the interpreter):
+    # one run per forked child
+    for k in range(4):
+        for kind in ("EACCES", "EPERM"):
+            chunks.append([("memory_percent", None, [(k, kind)], "cold")])
+            jobs.append(("memory_percent", None, [(k, kind)]))
     res = forkpool.map_fork(fault_chunk, chunks)
     recs = []
     for st, val in res:
